@@ -751,16 +751,17 @@ void tokenize_cleanup()
          }
       }
 
-      // Look for <newline> 'EXEC' 'SQL'
-      if (  (  pc->IsString("EXEC", false)
-            && next->IsString("SQL", false))
-         || (  (*pc->GetStr().c_str() == '$')
-            && pc->IsNot(CT_SQL_WORD)
-               /* but avoid breaking tokenization for C# 6 interpolated strings. */
-            && (  !language_is_set(lang_flag_e::LANG_CS)
-               || (  pc->Is(CT_STRING)
-                  && (!pc->GetStr().startswith("$\""))
-                  && (!pc->GetStr().startswith("$@\""))))))
+      // Look for <newline> 'EXEC' 'SQL' (never inside a disabled region)
+      if (  pc->IsNot(CT_IGNORED)
+         && (  (  pc->IsString("EXEC", false)
+               && next->IsString("SQL", false))
+            || (  (*pc->GetStr().c_str() == '$')
+               && pc->IsNot(CT_SQL_WORD)
+                  /* but avoid breaking tokenization for C# 6 interpolated strings. */
+               && (  !language_is_set(lang_flag_e::LANG_CS)
+                  || (  pc->Is(CT_STRING)
+                     && (!pc->GetStr().startswith("$\""))
+                     && (!pc->GetStr().startswith("$@\"")))))))
       {
          Chunk *tmp = pc->GetPrev();
 
